@@ -558,7 +558,16 @@ func runSessionAt(s *t2server, sc schedule, tag [8]byte, size int, ip1, ip2 stri
 		res.infraErr = err
 		return res
 	}
-	defer st.Close()
+	// smux's Stream.Close waits without a deadline for room to send its FIN: bounded here, the session
+	// and the packet conn are closed right after
+	defer func() {
+		closed := make(chan struct{})
+		go func() { st.Close(); close(closed) }()
+		select {
+		case <-closed:
+		case <-time.After(2 * time.Second):
+		}
+	}()
 	done := make(chan struct{})
 	got := make([]byte, len(res.payload))
 	var rerr, werr error
